@@ -65,7 +65,7 @@ TEXTS = {
                 "API of the finished ontology (every resolving iterator of every term and record, each of which panics on an id that does not "
                 "resolve) returns. The check runs every "
                 "generated call history twice on the real Builder (with and without its failing calls), demands identical read-API dumps, "
-                "exact error codes (fails iff an absent term is named), a panic-free complete read-API walk, and agreement with the model. NO DANGLING IDS ON EVERY CONSTRUCTION PATH: C15_wellformed_ontologies_walk_returns (any ontology with exact caches, children = parents^-1, inherited annotation sets and records naming stored terms), hence C15_jax_ontologies_walk_returns, C15_sub_ontologies_walk_returns, C15_binary_ontologies_walk_returns. C15_every_constructed_ontology_walk_returns: the same for the inductive closure of all public constructors. C15_annotate_on_stored_term_succeeds / C15_annotate_on_absent_term_is_rejected: annotate_* is rejected only for an absent term (Err(DoesNotExist)); on a stored term it returns Ok. C15_builder_scripts_run_to_the_end: a script with ids inside the id space whose successful add_parent calls describe an acyclic graph always runs to the end (rejected calls are Errs; nothing panics or runs out of fuel), whatever the order of the calls. BINARY FILES (C15_decoded_records_name_stored_terms, EVERY byte string): an ontology from_bytes returns lists only stored terms in its gene / disease records; an eighth of the C15 cases are binary files, most with a record naming a term the file lacks (statement: whatever is returned is referentially closed and can be walked).",
+                "exact error codes (fails iff an absent term is named), a panic-free complete read-API walk, and agreement with the model. NO DANGLING IDS ON EVERY CONSTRUCTION PATH: C15_wellformed_ontologies_walk_returns (any ontology with exact caches, children = parents^-1, inherited annotation sets and records naming stored terms), hence C15_jax_ontologies_walk_returns, C15_sub_ontologies_walk_returns, C15_binary_ontologies_walk_returns. C15_every_constructed_ontology_walk_returns: the same for the inductive closure of all public constructors. C15_annotate_on_stored_term_succeeds / C15_annotate_on_absent_term_is_rejected: annotate_* is rejected only for an absent term (Err(DoesNotExist)); on a stored term it returns Ok. C15_builder_scripts_run_to_the_end: a script with ids inside the id space whose successful add_parent calls describe an acyclic graph always runs to the end (rejected calls are Errs; nothing panics or runs out of fuel), whatever the order of the calls. BINARY FILES (C15_decoded_records_name_stored_terms, EVERY byte string): an ontology from_bytes returns lists only stored terms in its gene / disease records, and (C15_decoded_terms_carry_recorded_ids) every gene / disease id one of its terms carries has a record; an eighth of the C15 cases are binary files, most with a record naming a term the file lacks (statement: whatever is returned is referentially closed and can be walked).",
         "design_ref": "DESIGN.md §4 C15, §9", "note": NOTE_COMMON, "technique": TECH,
     },
     "C16": {
